@@ -305,6 +305,17 @@ def delRead (s : G) (th : Thread) (e : Nat) (rest : List Op) : Move :=
 def afterClose (held : List (Nat × Nat)) (op : Op) (rest : List Op) : List Op :=
   if held.isEmpty then rest else op :: rest
 
+/-- error paths that do not touch the pool state but what the caller is handed (both sides of the
+    correspondence use the same fixed rule):
+    * the failing constructor of key 3 returns a non-nil value TOGETHER with its error (as
+      `Logging.openWriter`'s constructor does): LoadOrNew hands that value to the constructing caller
+      with the error (`Fdg`); the pool never stores it, hands it to nobody else and never destructs it;
+    * the destructor of every value whose number is divisible by 3 returns an error: `Delete` passes it on,
+      `(true, err)` (`X<v>e`); the entry is gone all the same. -/
+def garbageKey (k : Nat) : Bool := k == 3
+
+def dtorErrSuffix (v : Nat) : String := if v % 3 = 0 then "e" else ""
+
 /-- the next region of a thread: the labels it performs, the thread afterwards, the event token -/
 def tmove (nk : Nat) (s : G) (th : Thread) : Move :=
   match th.prog with
@@ -318,8 +329,8 @@ def tmove (nk : Nat) (s : G) (th : Thread) : Move :=
     | .ctor e, .ln k true =>
       .go [.ctorOk e] { prog := rest, pc := .idle, held := (k, e) :: th.held } ("Co" ++ toString s.nextVal)
     | .ctor e, .ln _ false => .go [.ctorErr e] { th with pc := .lnFail e } "Cf"
-    | .lnFail e, .ln _ _ =>
-      .go [.lnFailDel e] { prog := rest, pc := .idle, held := th.held } "Fd"
+    | .lnFail e, .ln k _ =>
+      .go [.lnFailDel e] { prog := rest, pc := .idle, held := th.held } (if garbageKey k then "Fdg" else "Fd")
     | .lnWait e, .ln k _ =>
       if (s.ent e).wlocked then .blocked else
       .go [.lnRead e]
@@ -347,8 +358,8 @@ def tmove (nk : Nat) (s : G) (th : Thread) : Move :=
       else delStart s th k op rest
     | .delRead e, .del _ => delRead s th e rest
     | .delRead e, .cdel _ => delRead s th e rest
-    | .destruct e v, .del _ => .go [.del3 e] { prog := rest, pc := .idle, held := th.held } ("X" ++ toString v)
-    | .destruct e v, .cdel _ => .go [.del3 e] { prog := rest, pc := .idle, held := th.held } ("X" ++ toString v)
+    | .destruct e v, .del _ => .go [.del3 e] { prog := rest, pc := .idle, held := th.held } ("X" ++ toString v ++ dtorErrSuffix v)
+    | .destruct e v, .cdel _ => .go [.del3 e] { prog := rest, pc := .idle, held := th.held } ("X" ++ toString v ++ dtorErrSuffix v)
     | .idle, .refs k =>
       .go [.refs k] { prog := rest, pc := .idle, held := th.held }
         (match refsNow s k with
